@@ -173,6 +173,13 @@ LITERALS = [
     ('node written twice in a re-opened group: last literal zero', 'run\n  retries int = 3\n  offset int = 5 mm\nrun\n  retries int = 0', 'run.retries', 0, None, (I, 32, False)),
     ('node written twice with a unit: last literal zero', 'run\n  offset int = 5 mm\nrun\n  offset int = 0 mm', 'run.offset', 0, 'mm', (I, 32, False)),
     ('float written twice: last literal zero', 'a float = 2.5 m\na float = 0 m', 'a', 0.0, 'm', (F, 64, None)),
+    ('table string column with the words true and false', 'run\n  flags table = """\nid int\nlabel str\n\n1 on\n2 false\n3 "two words"\n4 true\n"""', 'run.flags.label', ['on', 'false', 'two words', 'true'], None, (S, None, None)),
+    ('table bool column next to a string column', 't table = """\nlabel str\nok bool\n\ntrue false\nfalse true\n"""', 't.ok', [False, True], None, (B, None, None)),
+    ('bare string containing = and ?', 'url str = http://host/q?id=7', 'url', 'http://host/q?id=7', None, (S, None, None)), ('bare string ending with ==', 'k str = abc==', 'k', 'abc==', None, (S, None, None)),
+    ('bare string containing = before a comment', 'a str = x=y  # c', 'a', 'x=y', None, (S, None, None)), ('quoted string containing =', "q str = 'a=b'", 'q', 'a=b', None, (S, None, None)),
+    ('string array whose elements contain =', 'a str[3] = ["mode=fast","n=2","plain"]', 'a', ['mode=fast', 'n=2', 'plain'], None, (S, None, None)),
+    ('table column name with a dot', 't table = """\npos.x float cm\nt-max float32 s\n\n1.5 2\n2.5 3\n"""', 't.pos.x', [1.5, 2.5], 'cm', (F, 64, None)),
+    ('table column name with a hyphen', 't table = """\npos.x float cm\nt-max float32 s\n\n1.5 2\n2.5 3\n"""', 't.t-max', [2.0, 3.0], 's', (F, 32, None)),
     ('none for an array node', 'a int[3] = none', 'a', None, None, (I, 32, False)), ('none for a matrix node with unit', 'a float32[2,2] = none cm', 'a', None, 'cm', (F, 32, None)),
     ('comment containing a minus after a unit', 'a float = 3 km  # outer - inner', 'a', 3.0, 'km', (F, 64, None)), ('comment containing a slash after a unit', 'a float = 3 km # a / b', 'a', 3.0, 'km', (F, 64, None)),
     ('comment containing a star after a unit', 'a float = 3 km # 2 * x', 'a', 3.0, 'km', (F, 64, None)), ('comment containing a plus, no unit', 'a int = 3 # x + y', 'a', 3, None, (I, 32, False)),
